@@ -92,7 +92,7 @@ UpSampled(P, R) ==
     /\ Len(R) = 4 * Len(P)
     /\ TotalArea2(R) = TotalArea2(P)
     /\ IF PairwiseDisjoint(P)
-       THEN \A k \in DOMAIN P : TilesExactly(P[k], R, InsideIdx(P[k], R))
+       THEN \A k \in DOMAIN P : LET G == InsideIdx(P[k], R) IN Cardinality(G) = 4 /\ TilesExactly(P[k], R, G)
        ELSE /\ \A j \in DOMAIN R : \E k \in DOMAIN P : TriInside(R[j], P[k]) /\ 4 * Area2(R[j]) = Area2(P[k])
             /\ \A k \in DOMAIN P : \A v \in VSet(P[k]) :
                    \E j \in DOMAIN R : TriInside(R[j], P[k]) /\ 4 * Area2(R[j]) = Area2(P[k]) /\ v \in VSet(R[j])
